@@ -73,6 +73,7 @@ type c28Obs struct {
 	OK, Timeouts, OtherErrors      int64
 	BatchOK, BatchErr              int64
 	WrongReply, BatchOrder         int64
+	WrongBatchReply                int64
 	WrongBatchLen                  int64
 	Wit                            []string
 	Fired                          int64
@@ -87,13 +88,16 @@ type c28Obs struct {
 func c28Gen(rng *rand.Rand) c28Script {
 	s := c28Script{
 		Askers:     8 + rng.Intn(57),
-		PerAsker:   8 + rng.Intn(10),
+		PerAsker:   6 + rng.Intn(7),
 		Responders: 1 + rng.Intn(8),
-		TimeoutMs:  []int{15, 25, 40}[rng.Intn(3)],
+		TimeoutMs:  []int{30, 60}[rng.Intn(2)],
 		BatchPct:   []int{0, 10, 30}[rng.Intn(3)],
 		ShortCtx:   []int{0, 10, 25}[rng.Intn(3)],
 		Noise:      rng.Intn(2) == 0,
 		Faults:     map[int64]string{},
+	}
+	if s.Responders < s.Askers/8 {
+		s.Responders = s.Askers / 8 // keep queueing delay at the responders below the timeout most of the time
 	}
 	total := s.Askers * s.PerAsker
 	for n := rng.Intn(7); n > 0; n-- {
@@ -140,7 +144,7 @@ func c28RunCase(e *c27Env, s c28Script, seed int64) (obs c28Obs) {
 		}
 		witMu.Unlock()
 	}
-	var ok, timeouts, other, batchOK, batchErr, wrong, border, blen, gaveUp, late atomic.Int64
+	var ok, timeouts, other, batchOK, batchErr, wrong, wrongBatch, border, blen, gaveUp, late atomic.Int64
 	var wg sync.WaitGroup
 	for ask := 0; ask < s.Askers; ask++ {
 		wg.Add(1)
@@ -208,7 +212,7 @@ func c28RunCase(e *c27Env, s c28Script, seed int64) (obs c28Obs) {
 							border.Add(1)
 							wit("batch replies permuted: requests %v replies %v", texts, got)
 						} else {
-							wrong.Add(1)
+							wrongBatch.Add(1)
 							wit("batch got foreign replies: requests %v replies %v", texts, got)
 						}
 					}
@@ -216,18 +220,16 @@ func c28RunCase(e *c27Env, s c28Script, seed int64) (obs c28Obs) {
 				}
 				// single ask: delay around the timeout
 				var delay time.Duration
-				switch rng.Intn(10) {
-				case 0, 1, 2, 3:
-					delay = time.Duration(rng.Intn(400)) * time.Microsecond
-				case 4:
-					delay = timeout / 2
-				case 5:
+				switch x := rng.Intn(40); {
+				case x < 30:
+					delay = time.Duration(rng.Intn(300)) * time.Microsecond
+				case x < 32:
 					delay = timeout*3/4 + time.Duration(rng.Intn(2000))*time.Microsecond
-				case 6:
+				case x < 34:
 					delay = timeout - time.Duration(rng.Intn(1500))*time.Microsecond
-				case 7:
+				case x < 36:
 					delay = timeout + time.Duration(rng.Intn(1500))*time.Microsecond
-				case 8:
+				case x < 37:
 					delay = timeout * 2
 				default:
 					delay = time.Duration(rng.Int63n(int64(timeout)))
@@ -277,6 +279,7 @@ func c28RunCase(e *c27Env, s c28Script, seed int64) (obs c28Obs) {
 	obs.OK, obs.Timeouts, obs.OtherErrors = ok.Load(), timeouts.Load(), other.Load()
 	obs.BatchOK, obs.BatchErr = batchOK.Load(), batchErr.Load()
 	obs.WrongReply, obs.BatchOrder, obs.WrongBatchLen = wrong.Load(), border.Load(), blen.Load()
+	obs.WrongBatchReply = wrongBatch.Load()
 	obs.ClientGaveUpBeforeServerReply, obs.LateReplies = gaveUp.Load(), late.Load()
 	obs.Fired = b.Proxy.Fired.Load() - fired0
 	obs.FiredLog = b.Proxy.FiredLog()
@@ -312,6 +315,9 @@ func TestVerif_C28(t *testing.T) {
 		detail := map[string]any{"script": key, "seed": seed, "obs": obs}
 		if obs.WrongReply > 0 {
 			r.Violation("wrong-reply:ask", detail)
+		}
+		if obs.WrongBatchReply > 0 {
+			r.Violation("wrong-reply:batch", detail)
 		}
 		if obs.BatchOrder > 0 {
 			r.Violation("batch-order:permuted", detail)
